@@ -237,9 +237,31 @@ pub fn check_pca(c: &Case, obs: &mut Obs) {
     let in_range = lam[k - 1] >= RANGE_MIN * lam1;
     obs.class_if(!in_range, "beyond_singular_ratio_1e3");
     // owned `Dataset` or `DatasetView` (record view + target view), records in the case's layout
+    // sample weights carried by the dataset (a function of the case's frame seed): none, non-uniform positive, or with
+    // zeros. The statement is about the sample covariance and the sample mean, PCA's documentation does not mention
+    // weights, and the code ignores them: the same unweighted obligations are judged whatever the weights are.
+    let weights: Option<ndarray::Array1<f32>> = match c.frame_seed % 3 {
+        0 => None,
+        kind => {
+            let mut rng = vengine::gen::SplitMix(c.frame_seed ^ 0x5eed_0001);
+            Some(ndarray::Array1::from_shape_fn(n, |_| {
+                let w = 0.25 + 4.0 * rng.unit() as f32;
+                if kind == 2 && rng.below(4) == 0 { 0.0 } else { w }
+            }))
+        }
+    };
+    obs.class_if(weights.is_some(), "dataset_with_sample_weights");
     let fitted = vengine::guard(|| match (rec.owned(), c.dataset_view) {
-        (Some(a), false) => Pca::params(k).whiten(c.whiten).fit(&DatasetBase::new(a.clone(), targets.clone())),
-        _ => Pca::params(k).whiten(c.whiten).fit(&DatasetBase::new(rec.view(), targets.view())),
+        (Some(a), false) => {
+            let ds = DatasetBase::new(a.clone(), targets.clone());
+            let ds = match &weights { Some(w) => ds.with_weights(w.clone()), None => ds };
+            Pca::params(k).whiten(c.whiten).fit(&ds)
+        }
+        _ => {
+            let ds = DatasetBase::new(rec.view(), targets.view());
+            let ds = match &weights { Some(w) => ds.with_weights(w.clone()), None => ds };
+            Pca::params(k).whiten(c.whiten).fit(&ds)
+        }
     });
     let model = match fitted {
         Err(m) => {
